@@ -147,6 +147,12 @@ def run(ctx):
             shutil.rmtree(d, ignore_errors=True)
 
 
+def finish_early(ctx, scs, acc, repro_info):
+    return "model_checking", {"evaluations": len(scs), "distinct_nontrivial": len(scs), "accepted": len(acc),
+                              "rule": "run cut short: reproduced rejections and no accepted completed handshake (canaries / vacuity not evaluated)",
+                              "rejected_signatures": sorted(set(repro_info.values())), "samples": [], "exhaustive": False}, []
+
+
 def replay_one(ctx):
     """./check C23 --replay replays/C23/<x>.json : the recorded schedule again, twice, judged by TLC."""
     rp = ctx.replay.get("replay", ctx.replay)
@@ -269,7 +275,7 @@ def _run(ctx, q, seed, pool):
             repro_info[s["id"]] = sig2
             ctx.finding(sig2, what, {"cfg": s["cfg"], "ops": s["ops"], "family": s["family"], "first_unexplained_event": i2,
                                      "accepted_by_as_coded_model": as_coded,
-                                     "trace": [{k: v for k, v in ev.items() if k in ("i", "op", "side", "ret", "kind", "level", "mt", "err", "builderr", "us")} for ev in runs2[s["id"]]][:60]})
+                                     "trace": [{k: v for k, v in ev.items() if k in ("i", "op", "side", "ret", "kind", "level", "mt", "err", "builderr")} for ev in runs2[s["id"]]][:60]})
         if unrepro:
             raise vlib.Machinery("%d rejected traces did not reproduce (ids %s)" % (len(unrepro), unrepro[:10]))
 
@@ -292,8 +298,11 @@ def _run(ctx, q, seed, pool):
                 all(e["complete"] for e in es if e["op"] == "End") and sum(1 for e in es if e["op"] == "End") == 2 and
                 not any(e["op"] == "Cancel" for e in es))
     base = next((s for s in scs if s["family"] == "eager" and good_complete(s)), None)
-    if base is None:
+    if base is None and not ctx.findings:
         raise vlib.Machinery("vacuity: no accepted, completed, uninjected run to build the canaries from")
+    if base is None:       # reproduced rejections are the result of this run; the canaries need an accepted run
+        ctx.note("binding canaries skipped: no accepted completed run to derive them from (the run has reproduced rejections)")
+        return finish_early(ctx, scs, acc, repro_info)
     bev = trace_row(base, runs[base["id"]])["evs"]
 
     def idx(pred):
@@ -357,7 +366,7 @@ def _run(ctx, q, seed, pool):
         "handledata_after_failure": has(lambda s, es: any(e["op"] == "Deliver" and e["ret"] == "err" for e in es[(next((k for k, e in enumerate(es) if e["ret"] == "err"), len(es)) + 1):])),
     }
     empty = [k for k, v in seen.items() if v == 0 and k != "handledata_after_failure"]
-    if empty:
+    if empty and not ctx.findings:
         raise vlib.Machinery("vacuity: no accepted real run exercised %s" % empty)
     # unbuildable inputs must have been exercised one way or the other
     nb_seen = {"repaired_behaviour": len(nb_fixed), "as_coded_behaviour": len(nb_asis), "neither": len(set(nobuild_ids) - nb_fixed - nb_asis)}
